@@ -135,3 +135,120 @@ package lib
 //@   invokes f
 //@   ensures invoked(f) == !old(o.done) && o.done
 //@   modifies o.done
+
+// ---------------------------------------------------------------- io model for hot backups (C14, A-lib io)
+// Every Write on an io.Writer is logged by ordinal: what page header / meta it carried and how many bytes.
+//@ ghost var wcount int                       -- number of Write calls so far
+//@ ghost var wbytes int                       -- bytes accepted by the writer so far
+//@ ghost var wpageid mapto[int,int]           -- page id in the header of the buffer of the k-th Write
+//@ ghost var wflags mapto[int,int]            -- page flags
+//@ ghost var wtxid mapto[int,int]             -- txid of the meta behind that header
+//@ ghost var wroot mapto[int,int]             -- root page of that meta
+//@ ghost var wfreelist mapto[int,int]         -- freelist page of that meta
+//@ ghost var wpgid mapto[int,int]             -- high-water mark of that meta
+//@ ghost var wvalid mapto[int,bool]           -- the meta behind that header validates
+//@ ghost var wlen mapto[int,int]              -- length of the buffer
+//@ ghost var sroff int                        -- offset of the most recent SectionReader
+//@ ghost var srlen int                        -- length of the most recent SectionReader
+//@ ghost var srfile int                       -- file of the most recent SectionReader
+//@ ghost var copyn int                        -- byte count requested from the most recent io.CopyN
+
+//@ func io.Writer.Write
+//@   trusted
+//@   returns (n, err)
+//@   ensures wcount == old(wcount) + 1 && 0 <= n && n <= len(p) && wbytes == old(wbytes) + n
+//@   ensures err == nil ==> n == len(p)
+//@   ensures let k := old(wcount) in wpageid[k] == pageat(p).id && wflags[k] == pageat(p).flags && wlen[k] == len(p) && wtxid[k] == metaof(pageat(p)).txid && wroot[k] == metaof(pageat(p)).root.root && wfreelist[k] == metaof(pageat(p)).freelist && wpgid[k] == metaof(pageat(p)).pgid && wvalid[k] == metavalid(metaof(pageat(p)))
+//@   ensures forall j int :: j != old(wcount) ==> wpageid[j] == old(wpageid[j]) && wflags[j] == old(wflags[j]) && wlen[j] == old(wlen[j]) && wtxid[j] == old(wtxid[j]) && wroot[j] == old(wroot[j]) && wfreelist[j] == old(wfreelist[j]) && wpgid[j] == old(wpgid[j]) && wvalid[j] == old(wvalid[j])
+//@   modifies wcount, wbytes, wpageid, wflags, wtxid, wroot, wfreelist, wpgid, wvalid, wlen
+
+//@ func io.NewSectionReader
+//@   trusted
+//@   ensures result != nil && sroff == off && srlen == n && srfile == ifaceref(r)
+//@   modifies sroff, srlen, srfile
+
+//@ func io.CopyN
+//@   trusted
+//@   returns (written, err)
+//@   ensures copyn == n && 0 <= written && written <= n && wbytes == old(wbytes) + written
+//@   ensures err == nil ==> written == n
+//@   modifies copyn, wbytes
+
+// ---------------------------------------------------------------- plain file access of the repair tools (C20, A-os-io)
+//@ ghost var osopenpath string     -- path of the most recent os.Open / os.OpenFile
+//@ ghost var osopenflag int        -- flag of the most recent os.OpenFile (os.Open: O_RDONLY)
+//@ ghost var fwcount int           -- number of (*os.File).WriteAt calls so far
+//@ ghost var fwoff int             -- offset of the most recent (*os.File).WriteAt
+//@ ghost var fwlen int             -- length of the most recent (*os.File).WriteAt
+//@ ghost var fwfile int            -- file of the most recent (*os.File).WriteAt
+//@ ghost var fwpath string         -- path under which that file was opened
+//@ ghost var fwpageid int         -- page id in the header at the start of the buffer of the most recent WriteAt
+//@ ghost var fwtxid int           -- fields of the meta behind that header (meaningful when the page is a meta page)
+//@ ghost var fwroot int
+//@ ghost var fwsequence int
+//@ ghost var fwfreelist int
+//@ ghost var fwpgid int
+//@ ghost var fwmagic int
+//@ ghost var fwversion int
+//@ ghost var fwpagesize int
+//@ ghost var fwflags int
+//@ ghost var fwsumok bool
+//@ ghost var fwoverflow int
+//@ ghost field os.File.gpath string   -- path under which a file was opened
+//@ ghost field os.File.gflag int      -- flags it was opened with
+
+//@ func os.Open
+//@   trusted
+//@   returns (f, err)
+//@   ensures osopenpath == name && osopenflag == 0
+//@   ensures err == nil ==> f != nil && fresh(f) && f.gpath == name && f.gflag == 0
+//@   modifies osopenpath, osopenflag, all("os.File.gpath"), all("os.File.gflag")
+
+//@ func os.OpenFile
+//@   trusted
+//@   returns (f, err)
+//@   ensures osopenpath == name && osopenflag == flag
+//@   ensures err == nil ==> f != nil && fresh(f) && f.gpath == name && f.gflag == flag
+//@   ensures forall g *os.File :: allocated(g) ==> g.gpath == old(g.gpath) && g.gflag == old(g.gflag)
+//@   modifies osopenpath, osopenflag, all("os.File.gpath"), all("os.File.gflag")
+
+//@ func os.(*File).WriteAt
+//@   trusted
+//@   returns (n, err)
+//@   requires [writable] f.gflag != 0          -- never write through a descriptor opened O_RDONLY
+//@   ensures fwcount == old(fwcount) + 1 && fwoff == off && fwlen == len(b) && fwfile == f && fwpath == f.gpath
+//@   ensures let m := metaof(pageat(b)) in fwpageid == pageat(b).id && fwoverflow == pageat(b).overflow && fwtxid == m.txid && fwroot == m.root.root && fwsequence == m.root.sequence && fwfreelist == m.freelist && fwpgid == m.pgid && fwmagic == m.magic && fwversion == m.version && fwpagesize == m.pageSize && fwflags == m.flags && fwsumok == (m.checksum == msum(m))
+//@   modifies fwcount, fwoff, fwlen, fwfile, fwpath, fwpageid, fwoverflow, fwtxid, fwroot, fwsequence, fwfreelist, fwpgid, fwmagic, fwversion, fwpagesize, fwflags, fwsumok
+
+//@ func io.ReadFull
+//@   trusted
+//@   returns (n, err)
+//@   ensures err == nil ==> n == len(buf)
+//@   modifies elems(buf)
+
+//@ ghost var createdpath string    -- path of the most recent os.Create
+//@ ghost var ncreated int          -- number of os.Create calls
+//@ ghost var copydst int           -- destination of the most recent io.Copy (interface payload)
+//@ ghost var copysrc int           -- source of the most recent io.Copy
+
+//@ func os.Create
+//@   trusted
+//@   returns (f, err)
+//@   ensures createdpath == name && ncreated == old(ncreated) + 1
+//@   ensures err == nil ==> f != nil && fresh(f) && f.gpath == name && f.gflag == 578
+//@   ensures forall g *os.File :: allocated(g) ==> g.gpath == old(g.gpath) && g.gflag == old(g.gflag)
+//@   modifies createdpath, ncreated, all("os.File.gpath"), all("os.File.gflag")
+
+//@ func io.Copy
+//@   trusted
+//@   returns (written, err)
+//@   ensures copydst == ifaceref(dst) && copysrc == ifaceref(src) && written >= 0
+//@   modifies copydst, copysrc
+
+//@ func os.Stat
+//@   trusted
+//@   modifies nothing
+
+//@ func os.IsNotExist
+//@   trusted
+//@   modifies nothing
